@@ -5,6 +5,10 @@ import "verifharness/engine"
 // Registry maps a property id to its check constructor.
 var Registry = map[string]func(seed int64) *engine.Check{
 	"C01": func(int64) *engine.Check { return C01() },
+	"C02": func(int64) *engine.Check { return C02() },
+	"C03": func(int64) *engine.Check { return C03() },
+	"C04": func(int64) *engine.Check { return C04() },
+	"C05": func(int64) *engine.Check { return C05() },
 	"C15": func(int64) *engine.Check { return C15() },
 }
 
